@@ -13,7 +13,7 @@ from ..facts import conjuncts, emission_sites, live_function_keys, trivially_dea
 from ..fold import RegexConst, Unknown, fold, fold_in_fn, fold_name
 from ..lexsim import LexerSim
 from ..minieval import Unsupported
-from ..model import AnalysisError, ancestors, text, walk_fn
+from ..model import AnalysisError, Undecided, ancestors, text, walk_fn
 from .c05 import _regex_may_match
 
 
@@ -254,7 +254,7 @@ def rule_escapes(run, prog):
         hexv = _pop_escape(prog, "\\x41'\n")
         octv = _pop_escape(prog, "\\101'\n")
     except Unsupported as e:
-        raise AnalysisError(f"Lexer.pop(use_escape=True) is outside the evaluable subset: {e}")
+        raise Undecided(f"Lexer.pop(use_escape=True) is outside the evaluable subset: {e}")
     miss = sorted(REF_ESC - set(recognised))
     node = _const_node(pop, lambda v: len(v) >= 6 and {"n", "t", "r"} <= set(v))
     run.ob("R-11.1", "lexer/lexer.py::Lexer.pop::simple-escapes", not miss,
@@ -311,7 +311,7 @@ def rule_digit_buckets(run, prog):
                     if flagged != (d not in digits) or not spans or others:
                         bad.append((src.strip(), "flagged" if flagged else "accepted", repr(out), others))
         except Unsupported as e:
-            raise AnalysisError(f"Lexer.parse_integer_literal is outside the evaluable subset: {e}")
+            raise Undecided(f"Lexer.parse_integer_literal is outside the evaluable subset: {e}")
         run.ob("R-11.1", f"{pil.key}::digits[{name}]", not bad,
                f"the digit set checked for {name} constants is wrong: " + "; ".join(f"{s} is {w} ({o} {e})" for s, w, o, e in bad[:4])
                + f"; expected exactly the digits {digits} under prefixes {list(prefixes)}",
@@ -357,7 +357,7 @@ def check(run, prog):
                         and not sim.error_names() and sim.pos == len(lx_)):
                     out.append((lx_, repr(res), sim.error_names()))
         except Unsupported as e:
-            raise AnalysisError(f"Lexer.{method} is outside the evaluable subset: {e}")
+            raise Undecided(f"Lexer.{method} is outside the evaluable subset: {e}")
         return out
 
     def show(rej):
